@@ -10,6 +10,13 @@ export CARGO_TARGET_DIR="${CARGO_TARGET_DIR:-$here/target}"
 export CARGO_NET_OFFLINE=true
 cd "$here/sim" || { echo "HARNESS-ERROR: $here/sim missing"; exit 2; }
 mkdir -p "$CARGO_TARGET_DIR"
+# pasfmt-core is compiled against the std shadow (sim/shadowstd.rs, through sim/rustc-wrap.sh); cargo
+# does not know about that file, so a missing or outdated shadow means pasfmt-core must be rebuilt
+shadow="$CARGO_TARGET_DIR/release/deps/libverif_std.rlib"
+if [ ! -f "$shadow" ] || [ "$here/sim/shadowstd.rs" -nt "$shadow" ] || [ "$here/sim/rustc-wrap.sh" -nt "$shadow" ]; then
+  rm -f "$shadow"
+  cargo clean --release --offline -p pasfmt-core > /dev/null 2>&1
+fi
 if ! cargo build --release --offline > "$CARGO_TARGET_DIR/build-$prop.log" 2>&1; then
   echo "HARNESS-ERROR: the simulator does not build against the current /repo tree (not a verdict)"
   grep -E "^(error|warning: unused)" -A12 "$CARGO_TARGET_DIR/build-$prop.log" | head -60
